@@ -30,7 +30,7 @@ ANCHORS = ['hash:hash_file', 'hash:hash_path', 'hash:get_hash_by_name',
            'cli:HashCommand.__call__']
 REQUIRED = ['hash:hash_file', 'verify:get_file_metadata', 'kat_checked',
             'short_read_cases', 'pipe_cases', 'unsupported_cases', 'inplace_cases',
-            'fifo_cases']
+            'fifo_cases', 'entry_cases']
 ASSUMPTIONS = ['oracle digests: hashlib one-shot, cross-checked on a sample against '
                'coreutils (md5sum sha1sum sha256sum sha512sum b2sum) and openssl dgst',
                'WHIRLPOOL is not provided by this Python/OpenSSL: UnsupportedHash is '
@@ -58,6 +58,8 @@ def units(tier, seed):
         u.append({'k': 'inplace', 'i': i})
     for i in range(4 if tier == 'quick' else 60):
         u.append({'k': 'fifo', 'i': i})
+    for i in range(3 if tier == 'quick' else 60):
+        u.append({'k': 'entry', 'i': i})
     u.append({'k': 'kat'})
     return u
 
@@ -444,6 +446,80 @@ def exec_inplace(ctx, case):
                           'in place against the entry of its OLD content', case)
 
 
+def exec_entry(ctx, case):
+    """What ends up in a Manifest entry: update_entry_for_path() on an entry in any
+    prior state (size right / wrong, checksums none / right / wrong / other names)
+    for any requested hash set including the empty one must leave the true size and
+    exactly the requested digests; verify_path() must agree with the entry."""
+    from gemato import verify as gv
+    rng = common.rng_for('c17-entry', case['seed'])
+    data = rng.randbytes(case['n'])
+    req = list(case['hashes'])
+    prior = dict(case['prior'])
+    ctx.case(sig=('entry', prior['size'], prior['sums'], len(req)), case=case,
+             klass='entry')
+    ctx.count('entry_cases')
+    with common.Scratch('vf-c17e-') as d:
+        p = os.path.join(d, 'f')
+        with open(p, 'wb') as f:
+            f.write(data)
+        size0 = len(data) if prior['size'] == 'right' else len(data) + prior['size']
+        if size0 < 0:
+            size0 = 0
+        pn = prior['names']
+        if prior['sums'] == 'none':
+            sums0 = {}
+        elif prior['sums'] == 'right':
+            sums0 = {m: mtext.digest(m, data) for m in pn}
+        else:
+            sums0 = {m: mtext.digest(m, data + b'x') for m in pn}
+        e = adapt.to_gemato({'tag': 'DATA', 'path': 'f', 'size': size0, 'sums': sums0})
+        try:
+            changed = gv.update_entry_for_path(p, e, hashes=list(req))
+        except Exception as exc:
+            ctx.violation('entry-update-raises:' + adapt.exc_key(exc),
+                          'update_entry_for_path raised %r' % (exc,), case)
+            return
+        want = {m: mtext.digest(m, data) for m in req}
+        got = dict(e.checksums)
+        if e.size != len(data):
+            ctx.violation('entry-size-not-bytes', 'after update_entry_for_path the entry '
+                          'says %r bytes, the file has %d (prior entry: size %r, '
+                          'checksums %s)' % (e.size, len(data), size0, prior['sums']),
+                          case)
+            return
+        if got != want:
+            ctx.violation('entry-digests-wrong', 'after update_entry_for_path(hashes=%r) '
+                          'the entry carries %r' % (req, sorted(got)), case,
+                          {'got': got, 'want': want})
+            return
+        should_change = size0 != len(data) or sums0 != want
+        if bool(changed) != should_change:
+            ctx.violation('entry-changed-flag', 'update_entry_for_path returned %r, the '
+                          'entry %s' % (changed, 'changed' if should_change
+                                        else 'did not change'), case)
+            return
+        ok, diff = gv.verify_path(p, e)
+        if not ok:
+            ctx.violation('entry-does-not-verify', 'the refreshed entry does not verify: '
+                          '%r' % (diff,), case)
+
+
+def run_entry(u, ctx):
+    rng = common.rng_for(ctx.seed, ID, 'entry', u['i'])
+    sup = mtext.supported_hashes()
+    for size in ('right', 1, -1, 15):
+        for sums in ('none', 'right', 'wrong'):
+            for req in ([], rng.sample(sup, 1), rng.sample(sup, 2)):
+                exec_entry(ctx, {'kind': 'entry', 'seed': rng.randrange(1 << 30),
+                                 'n': rng.choice([0, 1, 10, 300, 70000]),
+                                 'hashes': sorted(req),
+                                 'prior': {'size': size, 'sums': sums,
+                                           'names': sorted(rng.sample(sup, rng.randint(
+                                               1, 2))) if rng.random() < 0.5
+                                           else sorted(req) or ['MD5']}})
+
+
 def run_inplace(u, ctx):
     rng = common.rng_for(ctx.seed, ID, 'inplace', u['i'])
     sup = mtext.supported_hashes()
@@ -516,7 +592,8 @@ def run_fifo(u, ctx):
 
 def run_unit(u, ctx):
     {'len': run_len, 'rand': run_rand, 'pipe': run_pipe_unit, 'names': run_names,
-     'kat': run_kat, 'inplace': run_inplace, 'fifo': run_fifo}[u['k']](u, ctx)
+     'kat': run_kat, 'inplace': run_inplace, 'fifo': run_fifo,
+     'entry': run_entry}[u['k']](u, ctx)
 
 
 def replay(case, ctx):
@@ -524,5 +601,7 @@ def replay(case, ctx):
         exec_inplace(ctx, case)
     elif case['kind'] == 'fifo':
         exec_fifo(ctx, case)
+    elif case['kind'] == 'entry':
+        exec_entry(ctx, case)
     else:
         exec_case(case, ctx)
